@@ -7,8 +7,16 @@
     lifetimes ['static], placeholders, erased.  [erase] replaces every lifetime by ['static].
     [variance_constraints] is the independent structural definition of the requirements
     dictated by the variance of each position (Infer/Variance.v); a requirement [(x, y)] reads
-    [x: y].  Sets of goals are compared with [seteq] (mutual inclusion). *)
-From Chalk Require Import Ir.Syntax Infer.Table Infer.Unify Infer.Variance Infer.Closed.
+    [x: y].  Sets of goals are compared with [seteq] (mutual inclusion).
+
+    PROVED: [relate_cov_shape], [relate_cov_constraints] (variable-free types, syntactic set
+    equality); [relate_cov_shape_unknowns], [relate_cov_constraints_unknowns] (types whose
+    lifetimes may be UNKNOWNS, fragment [ufrag]: as [cfrag] without fn pointers; semantic
+    equivalence in every preorder model of the lifetimes, because at invariant positions chalk
+    binds / unions the unknowns instead of returning goals); [xform_assoc], [invert_involutive].
+    NOT PROVED: types with TYPE unknowns (generalisation introduces fresh lifetime unknowns
+    that would have to be eliminated); fn pointers together with lifetime unknowns. *)
+From Chalk Require Import Ir.Syntax Infer.Table Infer.Unify Infer.Variance Infer.Closed Infer.ClosedU.
 
 (** Covariant relate of closed types succeeds iff the lifetime-erased structures agree. *)
 Theorem relate_cov_shape : forall adt_var fn_var arity fuel a b t,
@@ -30,6 +38,42 @@ Check relate_cov_constraints : forall adt_var fn_var arity fuel a b t gs t',
   cfrag arity a = true -> cfrag arity b = true -> (depth a <= fuel)%nat ->
   relate adt_var fn_var fuel Covariant a b t = (Done gs, t') ->
   t' = t /\ seteq gs (map goal_of_requirement (variance_constraints adt_var fn_var Covariant a b)).
+
+(** Types whose lifetimes may be unknowns ([ufrag]; [ltinv t]: cells of one class agree and bound
+    lifetime unknowns are bound to closed lifetimes; [ucells t a]: the unknowns of [a] are
+    variables of [t]).  Success iff the lifetime-erased structures agree. *)
+Theorem relate_cov_shape_unknowns : forall adt_var fn_var arity fuel a b t,
+  ufrag arity a = true -> ufrag arity b = true -> (depth a <= fuel)%nat -> ltinv t -> ucells t a -> ucells t b ->
+  ((exists gs t', relate adt_var fn_var fuel Covariant a b t = (Done gs, t')) <-> erase a = erase b).
+Proof. exact relate_cov_shape_unknowns_lemma. Qed.
+Check relate_cov_shape_unknowns : forall adt_var fn_var arity fuel a b t,
+  ufrag arity a = true -> ufrag arity b = true -> (depth a <= fuel)%nat -> ltinv t -> ucells t a -> ucells t b ->
+  ((exists gs t', relate adt_var fn_var fuel Covariant a b t = (Done gs, t')) <-> erase a = erase b).
+
+(** ... and then, in every preorder model [(D, le, ρ)] of the lifetimes that respects the table
+    before the call ([respects]: bound unknowns are equivalent to their values, unioned unknowns
+    are equivalent): the model respects the resulting table and satisfies the returned goals
+    IFF it satisfies the requirements dictated by variance.  Every model of the resulting table
+    is a model of the initial one; the resulting table is again well formed. *)
+Theorem relate_cov_constraints_unknowns : forall adt_var fn_var arity fuel a b t gs t',
+  ufrag arity a = true -> ufrag arity b = true -> (depth a <= fuel)%nat -> ltinv t -> ucells t a -> ucells t b ->
+  relate adt_var fn_var fuel Covariant a b t = (Done gs, t') ->
+  ltinv t' /\
+  forall (D : Type) (le : D -> D -> Prop), (forall x, le x x) -> (forall x y z, le x y -> le y z -> le x z) ->
+  forall ρ : tm -> D,
+    (respects D le ρ t' -> respects D le ρ t)
+    /\ (respects D le ρ t ->
+         ((respects D le ρ t' /\ sat_goals D le ρ gs) <-> sat D le ρ (variance_constraints adt_var fn_var Covariant a b))).
+Proof. exact relate_cov_constraints_unknowns_lemma. Qed.
+Check relate_cov_constraints_unknowns : forall adt_var fn_var arity fuel a b t gs t',
+  ufrag arity a = true -> ufrag arity b = true -> (depth a <= fuel)%nat -> ltinv t -> ucells t a -> ucells t b ->
+  relate adt_var fn_var fuel Covariant a b t = (Done gs, t') ->
+  ltinv t' /\
+  forall (D : Type) (le : D -> D -> Prop), (forall x, le x x) -> (forall x y z, le x y -> le y z -> le x z) ->
+  forall ρ : tm -> D,
+    (respects D le ρ t' -> respects D le ρ t)
+    /\ (respects D le ρ t ->
+         ((respects D le ρ t' /\ sat_goals D le ρ gs) <-> sat D le ρ (variance_constraints adt_var fn_var Covariant a b))).
 
 (** Composition of variances is associative. *)
 Theorem xform_assoc : forall a b c, xform (xform a b) c = xform a (xform b c).
